@@ -32,6 +32,9 @@ type Node struct {
 	Data     string
 	Perm     fs.FileMode // permission bits; 0 means default (0644 / 0755)
 	Target   string      // symlink target, relative to the link's directory or absolute ("/x")
+	// FakeSize, if non-zero, is what Stat reports as the size of a regular file (its readable
+	// content stays Data): sizes beyond what can be materialised, e.g. 1<<32+1.
+	FakeSize int64
 	Children []*Node
 }
 
@@ -226,7 +229,12 @@ type info struct {
 }
 
 func (i info) Name() string               { return i.name }
-func (i info) Size() int64                { return int64(len(i.n.Data)) }
+func (i info) Size() int64 {
+	if i.n.FakeSize != 0 {
+		return i.n.FakeSize
+	}
+	return int64(len(i.n.Data))
+}
 func (i info) Mode() fs.FileMode          { return i.n.mode() }
 func (i info) ModTime() time.Time         { return time.Unix(1_600_000_000, 0) }
 func (i info) IsDir() bool                { return i.n.Kind == Dir }
